@@ -625,6 +625,25 @@ def r4(ctx):
     ctx.check(ok, "C04.R4", "stateful_eval keeps every occurrence of a stateful call (appends, never overwrites by key)", se.where, ctx.construct(se, text="collect stateful nodes"),
               "stateful calls are collected with a keyed store (`nodes[key] = node`): of several identical calls in one factor only the last is handed `_state`, the "
               "others re-fit on new data")
+    # which calls are stateful is decided on the OBJECT the callee expression evaluates to in the environment (so `tf.scale(x)`,
+    # `m.transforms.poly(x, 2)` are recognised like `scale(x)`), wherever that test lives (helper or inline)
+    mod_fns = [g for q, g in P.functions.items() if q.startswith("formulaic.utils.stateful_transforms.") and not isinstance(g.node, ast.Lambda)]
+    marks = []
+    for g in mod_fns:
+        for c_ in walk_no_nested(g.node):
+            if isinstance(c_, ast.Call) and norm(c_.func) == "getattr" and len(c_.args) >= 2 and is_const(c_.args[1], "__is_stateful_transform__"):
+                marks.append((g, c_))
+    ctx.floor("C04.R4", len(marks), 1, "reads of the __is_stateful_transform__ marker")
+    for g, c_ in marks:
+        ctx.look()
+        from ..util import inline_locals
+        subj = inline_locals(c_.args[0], g.node)
+        evs_ = [x for x in ast.walk(subj) if isinstance(x, ast.Call) and norm(x.func) == "eval"]
+        ok = any(any(isinstance(a, ast.Attribute) and a.attr == "func" for a in ast.walk(x.args[0])) and any(norm(a) == "env" for a in x.args[1:]) for x in evs_ if x.args)
+        ctx.check(ok, "C04.R4", "a call is stateful when the object its callee expression evaluates to in the environment carries the marker", g.module.line(c_),
+                  ctx.construct(g, text="stateful marker lookup"),
+                  f"the marker is read from `{norm(subj)[:90]}`: the callee must be resolved by evaluating the whole function expression (node.func) against env — a "
+                  f"lookup by bare name misses transforms reached through a namespace (`tf.scale(x)`), which then run without the recorded state")
     ok, why = contains(P, se, """
         def stateful_eval(expr, env, metadata, state, spec, variables=None):
             for name, node in ANY_nodes:
